@@ -43,7 +43,9 @@ RULE = ("scenario = (tree key, waiting-area cap, forest shape {chain, star, rand
         "from_database_tuple with right/wrong content; re-signed twins (ECDSA keys); small-scope enumeration: all "
         "shapes x all permutations, plain and with one extra bad/duplicate item; offered objects whose content field "
         "holds foreign bytes (first arrivals and duplicates of stored tokens); re-cut copies of tokens; reader trees "
-        "opened with the bare public key or with a key object that also holds the secret; owner-mode trees")
+        "opened with the bare public key or with a key object that also holds the secret; owner-mode trees; other "
+        "objects signed by the key cut as tokens; Token(...) with both / neither of content and content_hash; identity "
+        "manager histories on a database file with restarts")
 TRUSTED_BASE = [
     "hand-written Lean model of tokentree/tree.py, token.py, signed_object.py (Ipv8/C16/Model.lean), tied to the code by "
     "the correspondence run; tools/gen_c16.py (AST extraction of five constants) for GenConst.lean",
@@ -172,6 +174,15 @@ def build_tokens(rng, sk, fk, genesis: bytes, parents: list[int], mix: list[str]
         elif kind == "foreign-tree":   # a token of the other key's own tree
             fgen = sha3(fk.pub().key_to_bin())
             t = mk_token(fk, fgen, b"ftree%d" % rng.randrange(1 << 30), label=kind, good=False)
+        elif kind == "signed-non-token":
+            # something ELSE the key signed whose plaintext starts with a 32-byte pointer - the Metadata of a credential
+            # is `token_pointer + JSON`, public in every disclosure - cut as Token(prev=pointer, content_hash=JSON)
+            prev = genesis if rng.random() < 0.3 else tk_hid(base)
+            body = b'{"name": "attr%d", "schema": "id_metadata", "date": %d.0}' % (rng.randrange(100), rng.randrange(10 ** 9))
+            if rng.random() < 0.3:
+                body = body[:rng.choice([1, 5, 31, 33])]
+            t = {"prev": prev.hex(), "chash": body.hex(), "sig": sk.signature(prev + body).hex(), "content": None,
+                 "good": True, "label": "signed-non-token"}
         elif kind == "resplit":
             # the same signed bytes cut at another place: same signature, same hash, `==` the original, other pointers
             k = rng.choice([31, 30, 33, 16, 0, 40])
@@ -326,7 +337,7 @@ def make_scenario(rng, size_class: str | None = None) -> dict:
     shape = rng.choice(["chain", "star", "binary", "comb", "tworoots", "wide", "random", "random"])
     parents = parents_for(rng, n, shape)
     kinds = ["forged-sig", "forged-chash", "forged-prev", "foreign", "foreign-tree", "dangling", "dangling-child",
-             "resplit", "resplit"]
+             "resplit", "resplit", "signed-non-token", "signed-non-token"]
     nmix = rng.choice([0, 0, 1, 2, 3, 5]) if n < 50 else rng.choice([0, 1])
     mix = [rng.choice(kinds) for _ in range(nmix)]
     if keytype == "very-low" and n < 50:     # ECDSA: two valid signatures of one pointer pair exist
@@ -336,8 +347,8 @@ def make_scenario(rng, size_class: str | None = None) -> dict:
     arr = arrival(rng, toks, parents, order)
     ops = []
     for i in arr:
-        form = rng.choice(["pub", "pub", "full", "hash", "dbgood", "dbbad", "fullbad"]) if toks[i]["content"] is not None \
-            else rng.choice(["hash", "dbbad", "fullbad"])
+        form = rng.choice(["pub", "pub", "full", "hash", "dbgood", "dbbad", "fullbad", "both", "bothgood"]) \
+            if toks[i]["content"] is not None else rng.choice(["hash", "dbbad", "fullbad", "both", "neither"])
         if not wellformed(toks[i]):
             form = "hash"
         ops.append(["gather", i, form])
@@ -471,7 +482,7 @@ class Run:
 
     def name(self, i: int, form: str) -> str:
         t = self.toks[i]
-        nm = f"t{i}{form[0] if not (form.startswith('db') or form == 'fullbad') else form}"
+        nm = f"t{i}{form[0] if not (form.startswith('db') or form in ('fullbad', 'both', 'bothgood', 'neither')) else form}"
         if self.with_lines and nm not in self.named:
             self.named.add(nm)
             prev, chash, sig = (bytes.fromhex(t[k]) for k in ("prev", "chash", "sig"))
@@ -501,10 +512,27 @@ class Run:
         from ipv8.attestation.tokentree.token import Token
         t = self.toks[i]
         prev, chash, sig = (bytes.fromhex(t[k]) for k in ("prev", "chash", "sig"))
+        if form == "pub" and not wellformed(t):      # the wire format cannot carry it: build it through the constructor
+            form = "hash"
         if form == "pub":
             return Token.unserialize(prev + chash + sig, self.pub)
         if form == "full":
             return Token(prev, content=bytes.fromhex(t["content"]), signature=sig)
+        if form in ("both", "bothgood", "neither"):      # Token.__init__ given content AND content_hash / none of them
+            kw = {} if form == "neither" else {
+                "content": self.claimed(i) if form == "both" or t["content"] is None else bytes.fromhex(t["content"]),
+                "content_hash": chash}
+            try:
+                o = Token(prev, signature=sig, **kw)
+            except RuntimeError:
+                self.ctx.count(f"init:{form}:refused")
+                return None
+            self.ctx.count(f"init:{form}:constructed")
+            if o.content is not None and sha3(o.content) != o.content_hash:
+                self.fail("Token.__init__:unbound-content",
+                          f"Token(prev, content={o.content!r}, content_hash=<pointer>, signature=...) was constructed and "
+                          f"carries content that does not hash to its content pointer")
+            return o
         if form == "fullbad":      # a relay's claim: the content field is covered by neither hash nor signature
             o = Token.unserialize(prev + chash + sig, self.pub)
             o.content = self.claimed(i)
@@ -701,6 +729,21 @@ class Run:
                 if kind == "gather":
                     _, i, form = op
                     tok = self.obj(i, form)
+                    if form in ("both", "bothgood", "neither"):
+                        t_ = self.toks[i]
+                        c_ = None if form == "neither" else (self.claimed(i) if form == "both" or t_["content"] is None
+                                                             else bytes.fromhex(t_["content"]))
+                        if c_ is not None:
+                            self.reg_h(c_)
+                        self.line(f"init t{i}{form} {hx(bytes.fromhex(t_['prev']))} {'none' if c_ is None else hx(c_)} "
+                                  f"{'none' if form == 'neither' else hx(bytes.fromhex(t_['chash']))} "
+                                  f"{hx(bytes.fromhex(t_['sig']))}",
+                                  "error" if tok is None else f"ok {hx(tok.content_hash)} "
+                                  f"{'none' if tok.content is None else hx(tok.content)}")
+                        if tok is None:
+                            continue
+                        self.reg_fields(*(bytes.fromhex(t_[k]) for k in ("prev", "chash", "sig")))
+                        self.named.add(f"t{i}{form}")
                     nm = self.name(i, form)
                     self.offered.append(self.toks[i])
                     stored_before = tree.elements.get(self.hid[i])
@@ -919,9 +962,14 @@ class Run:
                                 self.offered.append(good_signed.get(ch) or {"prev": ch[:32].hex(), "chash": ch[32:64].hex(),
                                                                             "sig": ch[64:].hex(), "content": None,
                                                                             "good": False, "label": "bytes"})
-                            ok2 = t2.unserialize_public(sb)
+                            try:
+                                ok2 = "true" if t2.unserialize_public(sb) else "false"
+                            except struct.error:       # the dump starts with an object that is not chunk sized
+                                ok2 = "error"
+                                self.ctx.count("reload_upto:not-an-element:struct.error")
                             self.line(f"new {capw(sc['cap'])}", "ok")
-                            self.line(f"unser {hx(sb)}", f"{'true' if ok2 else 'false'} {self.state(t2)}")
+                            if ok2 == "error" or len(sb) % self.chunk == 0:
+                                self.line(f"unser {hx(sb)}", f"{ok2} {self.state(t2)}")
                             tree = t2
                             self.pre_contents = {}
                             self.check_invariants(tree, "after reload of serialize_public(up_to=<not an element>)")
@@ -1099,7 +1147,7 @@ def feed_model(ctx: Ctx, runs: list[Run]):
 
 def canon_model(ln: str, reply: str, r: Run) -> str:
     op = ln.split(" ", 1)[0]
-    if op in ("gather", "unser", "state", "append", "offer", "vunser"):
+    if op in ("gather", "unser", "state", "append", "offer", "vunser", "psubst", "pcred", "prestart"):
         parts = reply.split(" ")
         out = []
         for p in parts:
@@ -1252,6 +1300,131 @@ def run_deep(ctx: Ctx):
     r.check_complete(r.tree, "deep chain")
     ctx.count("special:deep-chain-%d" % n)
     ctx.case(("deep", n), True)
+
+
+# ------------------------------------------------------------------------------------------------------------
+# persistence: IdentityManager / PseudonymManager on a database file, with restarts
+# ------------------------------------------------------------------------------------------------------------
+def make_persist_scenario(rng) -> dict:
+    keyhex, fkeyhex = seeded_key(rng), seeded_key(rng)
+    sk, fk = load_key(keyhex), load_key(fkeyhex)
+    genesis = sha3(sk.pub().key_to_bin())
+    n = rng.randrange(2, 8)
+    parents = parents_for(rng, n, rng.choice(["chain", "chain", "random", "binary"]))
+    mix = [rng.choice(["dangling", "forged-sig", "signed-non-token", "foreign", "dangling-child"])
+           for _ in range(rng.randrange(0, 3))]
+    toks = build_tokens(rng, sk, fk, genesis, parents, mix)
+    wire = [i for i, t in enumerate(toks) if wellformed(t)]
+    evs = []
+    for _ in range(rng.randrange(2, 6)):
+        r = rng.random()
+        if r < 0.55:      # a disclosure: a root path with its first tokens stripped, a subset, a shuffled dump ...
+            how = rng.choice(["path-tail-stripped", "path-tail-stripped", "subset", "all-shuffled", "all-inorder"])
+            if how == "path-tail-stripped":
+                i = rng.randrange(n)
+                path = [i]
+                while parents[path[-1]] >= 0:
+                    path.append(parents[path[-1]])
+                keep = path[:max(1, len(path) - rng.randrange(1, 3))]      # child first, the root end is missing
+                idx = keep
+            elif how == "subset":
+                idx = [i for i in wire if rng.random() < 0.6]
+                rng.shuffle(idx)
+            else:
+                idx = list(wire)
+                if how == "all-shuffled":
+                    rng.shuffle(idx)
+            evs.append(["substantiate", how, idx])
+        elif r < 0.75:
+            evs.append(["credential", rng.randrange(len(toks))])
+        else:
+            evs.append(["restart"])
+    evs.append(["restart"])
+    if rng.random() < 0.6:
+        evs.append(["substantiate", "all-inorder", list(wire)])
+        evs.append(["restart"])
+    return {"persist": True, "key": keyhex, "fkey": fkeyhex, "keytype": "curve25519", "cap": 100, "shape": "persist",
+            "order": "persist", "size_class": "persist", "parents": parents, "mix": mix, "tokens": toks, "ops": evs}
+
+
+class PersistRun(Run):
+    def run(self, ops=None):
+        import os
+        import tempfile
+        from ipv8.attestation.identity.manager import IdentityManager
+        from ipv8.attestation.identity.metadata import Metadata
+        sc = self.sc
+        if self.with_lines:
+            self.line(f"key {hx(self.genesis)} {self.siglen}", "ok")
+            self.line("pnew default", "ok")
+        with tempfile.TemporaryDirectory() as tmp:
+            path = os.path.join(tmp, "identity.db")
+            manager = IdentityManager(path)
+            try:
+                for n, ev in enumerate(sc["ops"]):
+                    self.cur = (n, ev)
+                    kind = ev[0]
+                    if kind == "substantiate":
+                        _, how, idx = ev
+                        data = b"".join(bytes.fromhex(self.toks[i]["prev"]) + bytes.fromhex(self.toks[i]["chash"])
+                                        + bytes.fromhex(self.toks[i]["sig"]) for i in idx)
+                        for i in idx:
+                            self.reg_fields(*(bytes.fromhex(self.toks[i][k]) for k in ("prev", "chash", "sig")))
+                            self.offered.append(self.toks[i])
+                        self.ctx.count(f"persist:substantiate:{how}")
+                        manager.substantiate(self.pub, b"", data, b"", b"")
+                        ln = f"psubst {hx(data)}"
+                    elif kind == "credential":
+                        i = ev[1]
+                        tok = self.obj(i, "hash")
+                        nm = self.name(i, "hash")
+                        self.offered.append(self.toks[i])
+                        md = Metadata(self.hid[i], b"{}", self.sk)
+                        manager.get_pseudonym(self.pub).add_credential(tok, md)
+                        self.ctx.count("persist:credential")
+                        ln = f"pcred {nm}"
+                    else:
+                        tree = manager.get_pseudonym(self.pub).tree
+                        if len(tree.unchained):
+                            self.ctx.count("persist:waiting-at-restart")
+                        fix = self.fixpoint(self.offered)
+                        if any(tk_hid(t) not in fix for t in self.offered if t["good"] and wellformed(t)):
+                            self.ctx.count("persist:substantiate:dangling-part")
+                        manager.database.close()
+                        manager = IdentityManager(path)
+                        self.ctx.count("persist:restart")
+                        ln = "prestart"
+                    tree = manager.get_pseudonym(self.pub).tree
+                    rows = len(manager.database.get_tokens_for(self.pub))
+                    self.line(ln, f"{self.state(tree)} D={rows}")
+                    self.check_invariants(tree, f"after event {n} {ev[:2]} of a PseudonymManager"
+                                          + (" (restarted on its database)" if kind == "restart" else ""))
+                    self.tree = tree
+            except Exception as e:
+                n, ev = self.cur
+                self.fail(f"IdentityManager.{ev[0]}:raises", f"event {n} {ev[:2]} raised {type(e).__name__}: {str(e)[:200]}")
+                if self.with_lines:
+                    self.lines, self.impl = self.lines[:len(self.impl)], self.impl[:len(self.lines)]
+            finally:
+                try:
+                    manager.database.close()
+                except Exception:
+                    pass
+
+
+def run_persist(ctx: Ctx, n_scen: int, use_model: bool):
+    runs = []
+    for k in range(n_scen):
+        sc = make_persist_scenario(ctx.rng)
+        ctx.count("shape:persist")
+        r = PersistRun(ctx, sc, use_model)
+        r.run()
+        runs.append(r)
+        ctx.case(("persist", tuple(sc["parents"]), tuple(sc["mix"]), tuple(str(e[:2]) for e in sc["ops"])), True)
+        if k < 1:
+            ctx.sample({"persist": True, "parents": sc["parents"], "mix": sc["mix"], "events": sc["ops"]})
+    if use_model:
+        feed_model(ctx, runs)
 
 
 def run_own(ctx: Ctx, n_scen: int, use_model: bool):
@@ -1628,9 +1801,9 @@ def forest_shapes(n: int):
 
 
 EXTRA_KINDS = ["forged-sig", "foreign", "dangling", "duplicate", "duplicate-foreign-content", "wrong-content",
-               "resplit"]
+               "resplit", "signed-non-token"]
 _BUILD_KIND = {"forged-sig": "forged-sig", "foreign": "foreign", "dangling": "dangling", "wrong-content": "forged-chash",
-               "resplit": "resplit"}
+               "resplit": "resplit", "signed-non-token": "signed-non-token"}
 
 
 def run_exhaustive(ctx: Ctx, sizes, use_model: bool, extra_kinds=None, tag="plain", one_kind_per_shape=False):
@@ -1723,6 +1896,8 @@ REQUIRED = [
     "multi:view-opened-with:bare public key", "loaded:trees-with-invalid-elements",
     "offer-carries:foreign-content:already-stored", "offer-carries:bound:already-stored",
     "multi:offer:other-key:none:seen-by-another-tree-before", "offered:resplit", "op:create", "op:todb",
+    "offered:signed-non-token", "init:both:refused", "init:neither:refused", "init:bothgood:refused",
+    "persist:restart", "persist:substantiate:dangling-part", "persist:credential", "persist:waiting-at-restart",
 ]
 
 
@@ -1755,6 +1930,9 @@ def run_tour(ctx: Ctx, use_model: bool):
     both = bytes.fromhex(b["prev"]) + bytes.fromhex(b["chash"])
     x = dict(b, prev=both[:31].hex(), chash=both[31:].hex(), content=None, label="resplit")
     dg = mk_token(sk, sha3(b"tour-nowhere"), b"tour-dangling", label="dangling")
+    body = b'{"name": "tour"}'
+    nt = {"prev": tk_hid(a).hex(), "chash": body.hex(), "sig": sk.signature(tk_hid(a) + body).hex(), "content": None,
+          "good": True, "label": "signed-non-token"}
     G = "gather"
     s1 = scen([a, b, c, d, e, f, x, dg],
               [[G, 6, "hash"], [G, 5, "pub"], [G, 3, "pub"], [G, 3, "hash"], [G, 4, "pub"], [G, 1, "pub"], [G, 2, "pub"],
@@ -1763,7 +1941,8 @@ def run_tour(ctx: Ctx, use_model: bool):
                ["verify", 0, 0], ["path", 5, 1000], ["path", 4, 2], ["path", 7, 1000], ["path", 0, 1000],
                ["path", 4, 1000], ["path", 4, 0]])
     s2 = scen([a, b, d], [[G, 2, "pub"], [G, 1, "pub"], [G, 0, "pub"]], cap=1)
-    s3 = scen([a, b, c], [[G, 1, "pub"], [G, 2, "hash"], [G, 0, "pub"], [G, 0, "hash"]])
+    s3 = scen([a, b, c, nt], [[G, 3, "hash"], [G, 1, "both"], [G, 1, "neither"], [G, 1, "pub"], [G, 2, "hash"],
+                              [G, 0, "pub"], [G, 0, "hash"], [G, 3, "hash"], [G, 2, "bothgood"], ["ser"], ["reload"]])
     s4 = scen([a, b], [[G, 0, "pub"], [G, 1, "pub"]], open_with_secret=True)
     fr = mk_token(fk, g, b"tour-foreign", label="foreign", good=False)
     ch = mk_token(sk, tk_hid(fr), b"tour-child", label="dangling-child")
@@ -1842,6 +2021,7 @@ def run(ctx: Ctx):
         "two entries (real_tokens + at most ONE extra item); several extra items at once are sampled, not enumerated")
     ctx.extra["exhaustive"] = False     # the property's quantifier is not exhausted by any tier (see the key above)
     run_loaded(ctx, ctx.scale(150, 1200), ctx.model_ok)
+    run_persist(ctx, ctx.scale(60, 400), ctx.model_ok)
     run_own(ctx, ctx.scale(150, 1000), ctx.model_ok)
     run_multi(ctx, ctx.scale(250, 2000), ctx.model_ok)
     run_random(ctx, ctx.scale(400, 3000), ctx.scale(3, 5), ctx.model_ok)
@@ -1854,6 +2034,7 @@ def search(ctx: Ctx, reason: str):
     run_exhaustive(ctx, range(1, 5 if ctx.tier == "quick" else 6), False, tag="search-plain")
     run_exhaustive(ctx, range(1, 4 if ctx.tier == "quick" else 5), False, EXTRA_KINDS, tag="search-one-extra-item")
     run_loaded(ctx, ctx.scale(150, 600), False)
+    run_persist(ctx, 60, False)
     run_own(ctx, ctx.scale(150, 300), False)
     run_multi(ctx, ctx.scale(250, 600), False)
     run_random(ctx, ctx.scale(500, 4000), 4, False)
@@ -1862,6 +2043,12 @@ def search(ctx: Ctx, reason: str):
 def replay(ctx: Ctx, rec: dict):
     r = rec.get("replay", rec)
     sc = r["scenario"]
+    if sc.get("persist"):
+        pr = PersistRun(ctx, sc, False)
+        pr.run()
+        print("replay: property " + ("FAILS" if ctx.failures else "holds") + " on the replayed manager history")
+        ctx.case(("replay",), True)
+        return
     if sc.get("multi"):
         m = MultiRun(ctx, sc, False)
         m.run()
